@@ -13,3 +13,15 @@ package accesslist
 //@ func (*List).ClientOnly
 //@   modifies nothing
 //@   ensures result
+//@
+//@ # ---- C17: the resolver is open to everyone ONLY when no access list is configured at all: the two catch-all
+//@ # prefixes are added exactly when the configured list is empty, the set is compiled once from the (possibly
+//@ # defaulted) configured list, and that compiled set - even an EMPTY one, when every entry failed to parse - is what
+//@ # the middleware enforces (an all-invalid list admits nobody; it does not fall back to open)
+//@ func New
+//@   abstract
+//@   nosafety all pre
+//@   assert at append#1: len(old(cfg.AccessList)) == 0
+//@   assert at append#2: len(old(cfg.AccessList)) == 0
+//@   assert at call internal/ipset.New#1: calls("internal/ipset.New") == 0 && arg0 == cfg.AccessList
+//@   assert at store accesslist.List.allowed#1: value == lastret("internal/ipset.New") && calls("internal/ipset.New") == 1
